@@ -3,6 +3,9 @@
 
   tools/seed.py confirm <name> <worktree> <outdir>      demo fails with / passes without, tests pass with
   tools/seed.py run <name> <check> [<check> ...]        apply seeded/<name>/patch.diff to /repo, run quick checks, undo
+  tools/seed.py runwt <name> <check> [<check> ...]      same, but in a scratch worktree of /repo (SPOWTD_REPO=<worktree>):
+                                                        /repo is not touched, several seeds can be judged at once;
+                                                        evidence/ and replays/ are redirected to a scratch directory
 """
 import json
 import os
@@ -91,6 +94,40 @@ def run(name, checks, tier="quick"):
     return 0
 
 
+def runwt(name, checks, tier="quick"):
+    """as run(), against a scratch worktree of /repo's HEAD with the patch applied"""
+    import tempfile
+    dst = os.path.join(VERIF, "seeded", name)
+    patch = os.path.join(dst, "patch.diff")
+    wt = tempfile.mkdtemp(prefix="seedwt_" + name + "_", dir="/tmp")
+    os.rmdir(wt)
+    scratch = tempfile.mkdtemp(prefix="seedev_" + name + "_", dir="/tmp")
+    rc, o = sh("git worktree add --detach %s HEAD" % wt, cwd="/repo")
+    assert rc == 0, o
+    results = {}
+    try:
+        rc, o = sh("git apply %s" % patch, cwd=wt)
+        assert rc == 0, o
+        for c in checks:
+            t = time.time()
+            rc, o = sh("bin/check %s --tier %s" % (c, tier), cwd=VERIF,
+                       env={"SPOWTD_REPO": wt, "VERIF_EVIDENCE_DIR": scratch, "VERIF_REPLAY_DIR": scratch})
+            lines = [l for l in o.splitlines() if l.startswith("VIOLATION") or l.startswith("  ")][:4]
+            results[c] = {"exit": rc, "wall_s": round(time.time() - t, 1), "first": lines}
+            print(name, c, "exit", rc, "%.0fs" % (time.time() - t), lines[:2])
+            if rc not in (0, 1):
+                print(o[-1500:])
+    finally:
+        sh("git worktree remove --force %s" % wt, cwd="/repo")
+        shutil.rmtree(scratch, ignore_errors=True)
+    meta_p = os.path.join(dst, "meta.json")
+    meta = json.load(open(meta_p))
+    meta.setdefault("detected_by", {}).update({c: ("DETECTED" if r["exit"] == 1 else "missed (exit %d)" % r["exit"]) for c, r in results.items()})
+    meta.setdefault("runs", []).append({"when": time.strftime("%Y-%m-%d %H:%M"), "tier": tier, "where": "scratch worktree", "results": results})
+    json.dump(meta, open(meta_p, "w"), indent=1)
+    return 0
+
+
 def run_all():
     """regression: every seeded change against the check of its own property"""
     import glob
@@ -115,4 +152,6 @@ if __name__ == "__main__":
     args = sys.argv[3:]
     if "--thorough" in args:
         args.remove("--thorough"); tier = "thorough"
+    if sys.argv[1] == "runwt":
+        sys.exit(runwt(sys.argv[2], args, tier))
     sys.exit(run(sys.argv[2], args, tier))
